@@ -200,3 +200,9 @@ def C07_amp_after_moved_value(case, params):
     import rt
     import findings_rt as FR
     return FR.amp_after_moved_value(case, rt.c07_check)
+
+
+def C07_rotation_short_on_full_form(case, params):
+    import rt
+    import findings_rt as FR
+    return FR.rotation_short_on_full_form(case, rt.c07_check)
